@@ -507,9 +507,13 @@ fn p04(p: &mut ProbeReport, r: &mut Rng, budget: usize) {
                     let tq = tokenize_query(&q, &lang);
                     if !(tq.words.len() == 1 && wchars(&tq, 0) == e) { p.note("premise_not_met"); continue; }
                     p.eval(&format!("{}|{}|{}", code, title, q), true);
+                    // every third edited word is typed: one search per keystroke on the same store, then the whole word
+                    let mut typed: Vec<Op> = vec![];
+                    if (e.len() + i) % 3 == 0 { for k in 1..e.len() { let pre: String = e[..k].iter().collect(); let _ = search_results(&st, &pre); typed.push(Op::Search(pre)); } }
                     let hits = search_results(&st, &q);
                     if !hits.iter().any(|h| h.0 == *id) {
-                        p.fail(format!("edit {} of word {:?} (query {:?}) does not find record {} {:?}; hits {:?}", kind, cs.iter().collect::<String>(), q, id, title, hits), scn.case("c04", vec![Op::Search(q.clone())]));
+                        typed.push(Op::Search(q.clone()));
+                        p.fail(format!("edit {} of word {:?} (query {:?}{}) does not find record {} {:?}; hits {:?}", kind, cs.iter().collect::<String>(), q, if typed.len() > 1 { ", typed keystroke by keystroke" } else { "" }, id, title, hits), scn.case("c04", typed.clone()));
                     }
                 }
             }
@@ -805,7 +809,7 @@ fn lived_in_store(p: &mut ProbeReport, r: &mut Rng, rounds: usize, which: &str) 
                     // the same records inserted in another order into a new store give the same list
                     let mut shuffled = recs.clone(); r.shuffle(&mut shuffled);
                     let other = search_results(&Scn { lang: code.to_string(), recs: shuffled.clone(), limit }.build(), q);
-                    if hits != other { p.fail(format!("after these operations query {:?} lists {:?}; a store holding the same records inserted in the order {:?} lists {:?}", q, ids(&hits), shuffled.iter().map(|e| e.0).collect::<Vec<_>>(), ids(&other)), Case { name: "c07-lived".into(), lang: code.to_string(), stream: "probe", ops: o }); return; }
+                    if hits != other { p.fail(format!("after these operations query {:?} lists {:?}; a store holding the same records inserted in the order {:?} lists {:?}", q, hits, shuffled.iter().map(|e| e.0).collect::<Vec<_>>(), other), Case { name: "c07-lived".into(), lang: code.to_string(), stream: "probe", ops: o }); return; }
                     continue;
                 }
                 if hits != want { p.fail(format!("after these operations limit {} gives {:?}, which is not the first {} of the unlimited list {:?} (query {:?})", limit, ids(&hits), limit, ids(&unl), q), Case { name: "c06-lived".into(), lang: code.to_string(), stream: "probe", ops: o }); return; }
@@ -1761,6 +1765,7 @@ fn p19(p: &mut ProbeReport, r: &mut Rng, budget: usize) {
     // exact fit: a word exactly as long as the current dimension allows, on a fresh instance and after growth
     for round in 0..6 {
         let dl = DamerauLevenshtein::new();
+        let dlu = DamerauLevenshtein::new();    // fed the same pairs with the first word unfinished
         for _ in 0..4 {
             let size = dl.dists.borrow().verif_size();
             if size > 140 { break; }
@@ -1771,7 +1776,7 @@ fn p19(p: &mut ProbeReport, r: &mut Rng, budget: usize) {
                 let b: Vec<char> = (0..lb).map(|_| *r.pick(&['a', 'b', 'c'])).collect();
                 let (ta, tb) = (text_from_parts(&a, &vec![0; a.len()]), text_from_parts(&b, &vec![0; b.len()]));
                 p.eval(&format!("fit|{}|{}|{}", size, la, lb), true);
-                if let Err(e) = guarded(|| { dl.distance(&ta.view(0), &tb.view(0)); }) {
+                if let Err(e) = guarded(|| { dl.distance(&ta.view(0), &tb.view(0)); let tu = text_from_parts(&a, &vec![0; a.len()]).fin(false); dlu.distance(&tu.view(0), &tb.view(0)); }) {
                     p.fail(format!("unchecked access out of range (matrix dimension {}, lengths {} / {}): {}", size, la, lb, e), Case { name: "c19-fit".into(), lang: "none".into(), stream: "probe", ops: vec![Op::Dist(a.clone(), vec![0; a.len()], b.clone(), vec![0; b.len()])] });
                     return;
                 }
